@@ -31,7 +31,7 @@ pub struct LimitsCfg {
 pub fn gen_plan(seed: u64) -> Plan {
     let mut r = Rng::stream(seed, 1);
     let n = r.range(3, 14) as usize;
-    let misuse = if r.chance(2, 5) { 1 + r.below(5) as u8 } else { 0 };
+    let misuse = if r.chance(2, 5) { 1 + r.below(6) as u8 } else { 0 };
     let n_actions = r.range(6, 26) as usize;
     let mut acts = vec![];
     // graphs whose heights concentrate around n
@@ -344,6 +344,40 @@ pub fn run_on_this_thread(plan: &Plan, keep_trace: bool) -> RunOutput {
                             st.stabilise();
                             drop(o);
                         }
+                        6 => {
+                            // a cycle closed through the "created in the right-hand side of" relation:
+                            // b0 = switch.bind(|s| if s { node leaked from b's closure } else { constant })
+                            // b = b0(+maps).bind(|_| { n = w.map(..); slot = n; n })
+                            let switch = st.var(false);
+                            let c0 = st.constant(0i64);
+                            let h = holder.clone();
+                            let b0 = switch.bind(move |s: &bool| if *s { h.borrow().clone().unwrap() } else { c0.clone() });
+                            let mut lhs = b0.clone();
+                            for _ in 0..(t % 3) {
+                                lhs = lhs.map(|x| *x);
+                            }
+                            let h2 = holder.clone();
+                            let w0 = base.clone();
+                            let c = calls.clone();
+                            let b = lhs.bind(move |_| {
+                                tick(&c);
+                                let c2 = c.clone();
+                                let n = w0.map(move |x| {
+                                    tick(&c2);
+                                    norm(*x + 1)
+                                });
+                                *h2.borrow_mut() = Some(n.clone());
+                                n
+                            });
+                            let o = b.observe();
+                            st.stabilise();
+                            switch.set(true);
+                            let r = catch_unwind(AssertUnwindSafe(|| st.stabilise()));
+                            drop(o);
+                            if let Err(p) = r {
+                                std::panic::resume_unwind(p);
+                            }
+                        }
                         4 => {
                             let ws = st.weak();
                             let m = base.map(move |x| {
@@ -371,7 +405,7 @@ pub fn run_on_this_thread(plan: &Plan, keep_trace: bool) -> RunOutput {
                     Err(p) => Step::Panicked(panic_message(&p).0),
                 };
                 log.push(format!("misuse {} -> {:?}", cfg.misuse, step));
-                *out.faults.entry(["", "misuse_cycle", "misuse_cycle", "misuse_cross_state", "misuse_nested_stabilise", "misuse_nested_stabilise"][cfg.misuse as usize].into()).or_insert(0) += 1;
+                *out.faults.entry(["", "misuse_cycle", "misuse_cycle", "misuse_cross_state", "misuse_nested_stabilise", "misuse_nested_stabilise", "misuse_cycle_through_scope"][(cfg.misuse as usize).min(6)].into()).or_insert(0) += 1;
                 outcome = Some(step);
                 drop(foreign);
                 drop(other_state);
@@ -392,7 +426,7 @@ pub fn run_on_this_thread(plan: &Plan, keep_trace: bool) -> RunOutput {
                 if msg.contains("watchdog") {
                     bad!("misuse-loops", "the misuse made the engine loop until the callback budget ran out instead of panicking");
                 }
-                if matches!(cfg.misuse, 1 | 2) && !msg.to_lowercase().contains("cycl") {
+                if matches!(cfg.misuse, 1 | 2 | 6) && !msg.to_lowercase().contains("cycl") {
                     bad!("cycle-panic-without-diagnostic", "closing a dependency cycle panicked without naming the cause: {}", msg);
                 }
             }
